@@ -1095,6 +1095,14 @@ def record_fields(fn, assume):
                     if dv is not None:
                         dicts[tgt.id] = dv
                         continue
+                    if isinstance(v, ast.Call) and norm(v.func) in ("replace", "dataclasses.replace", "copy.copy") and len(v.args) == 1 and isinstance(v.args[0], ast.Name) \
+                            and all(k.arg for k in v.keywords):
+                        # a shallow copy: every field not given anew is the very object the source holds (shared, not copied)
+                        objs[tgt.id] = {"__base__": v.args[0].id, "__shared__": True, "__iadd_on_shared__": []}
+                        for k in v.keywords:
+                            objs[tgt.id][k.arg] = _txt(k.value)
+                            order.append(k.arg)
+                        continue
                     if isinstance(v, ast.Call) and len(v.keywords) == 1 and v.keywords[0].arg is None and not v.args:
                         kv = v.keywords[0].value
                         src = dicts.get(kv.id) if isinstance(kv, ast.Name) else dict_value(kv)
@@ -1113,7 +1121,10 @@ def record_fields(fn, assume):
                 return False
             if isinstance(st, ast.AugAssign) and isinstance(st.op, ast.Add) and isinstance(st.target, ast.Attribute) and isinstance(st.target.value, ast.Name) \
                     and st.target.value.id in objs:
-                objs[st.target.value.id][st.target.attr] = ("iadd", _txt(st.value))
+                o_ = objs[st.target.value.id]
+                if o_.get("__shared__") and st.target.attr not in o_:
+                    o_["__iadd_on_shared__"].append(st.target.attr)
+                o_[st.target.attr] = ("iadd", _txt(st.value))
                 order.append(st.target.attr)
                 continue
             if isinstance(st, ast.Expr) and isinstance(st.value, ast.Call) and isinstance(st.value.func, ast.Attribute) and isinstance(st.value.func.value, ast.Name):
@@ -1129,7 +1140,10 @@ def record_fields(fn, assume):
                 return False
             if isinstance(st, ast.Expr) and isinstance(st.value, ast.Call) and isinstance(st.value.func, ast.Attribute) and isinstance(st.value.func.value, ast.Attribute) \
                     and isinstance(st.value.func.value.value, ast.Name) and st.value.func.value.value.id in objs and st.value.func.attr == "extend" and len(st.value.args) == 1:
-                objs[st.value.func.value.value.id][st.value.func.value.attr] = ("iadd", _txt(st.value.args[0]))
+                o_ = objs[st.value.func.value.value.id]
+                if o_.get("__shared__") and st.value.func.value.attr not in o_:
+                    o_["__iadd_on_shared__"].append(st.value.func.value.attr)
+                o_[st.value.func.value.attr] = ("iadd", _txt(st.value.args[0]))
                 order.append(st.value.func.value.attr)
                 continue
             if isinstance(st, ast.For) and isinstance(st.target, ast.Name) and fields_of(st.iter) and len(st.body) == 1 and isinstance(st.body[0], ast.Assign) \
